@@ -263,6 +263,9 @@ class AsyncFIXConnection:
                 )
             if msg.msg_type == FMsg.LOGON:
                 self._connection_role = ConnectionRole.INITIATOR
+                # new Logon attempt (the flag may be left by the previous connection,
+                #  when its Logon was written into already closing transport)
+                self._logon_sent = False
                 socket_writer = self._socket_writer
                 await self._state_set(ConnectionState.LOGON_INITIAL_SENT)
                 if self._socket_writer is not socket_writer:
